@@ -30,7 +30,7 @@ func main() {
 			"F1 (depth<=2, fan-out<=2, full product; quick: no root effect when there are two children), F2 (depth-3 chains, full product; quick: effect in the deepest frame only), " +
 			"F3 (all 4-frame depth-3 shapes, every kind x outcome, one effect type per tree placed at all frames or at the leaves; quick: one shape, reduced alphabet), " +
 			"F4 (thorough: 5-frame depth-3 shapes and the full binary depth-3 tree over reduced alphabets); distinct by construction; non-trivial = at least one executed effect " +
-			"lies inside a failed or static frame. part b: one case = one sequence of transactions; non-trivial = length >= 2",
+			"lies inside a failed or static frame. part b: one case = one sequence of transactions; non-trivial = length >= 2. part c: one case = one block of 1..3 transactions over 8 kinds (native call / creation, json-rpc call / creation, operator-node, failing call, transfer, miner apply) executed by the block executor as a verifier (fullverify); non-trivial = length >= 2",
 		Assumptions: []string{
 			"harness assembler, address derivation (crypto.CreateAddress/2) and the node boot fixture are trusted",
 			"forks: all proposals active (P026 at height 1), execution height 2; gas chosen so that no frame runs out of gas unintentionally (1<<62 at the root)",
@@ -202,6 +202,7 @@ func (e *enumerator) products(name string, sh shape, ko []spec, rootOut []int, e
 func run(c *fw.Ctx) {
 	boot()
 	runTxSeqs(c)
+	runBlocks(c)
 
 	allK, allO, allE := seq(nKinds), seq(nOutcomes), seq(nEffects)
 	full := nonRootSpecs(allK, allO, allE)
@@ -424,6 +425,12 @@ func replay(c *fw.Ctx, raw json.RawMessage) {
 			panic(err)
 		}
 		checkSeq(c, tc.Seq, tc.TxType, isolatedRefs(tc.TxType))
+	case "block":
+		var bc blockCase
+		if err := json.Unmarshal(raw, &bc); err != nil {
+			panic(err)
+		}
+		checkBlock(c, bc.Kinds)
 	default:
 		panic("unknown case part " + probe.Part)
 	}
